@@ -36,6 +36,10 @@ def parse_text_corr(ctx, name, flagsets, quick_len=3, thorough_len=4, extra_patt
         body = ''.join(rng.choice(['[:alpha:]', '[:digit:]', '[:xdigit:]', 'a-f', '0-9', 'A-Z', 'z-a', 'a', '_', '-', '.',
                                    '\\]', '\\-', '!', '^', '[', '&&', '/', '[:punct:]', '+-0', '!-~', ',-.']) for _ in range(rng.randint(1, 5)))
         pats.append(rng.choice(['', 'a', '*', '?(']) + '[' + body + ']' + rng.choice(['', 'b', '*', ')']))
+    # grammar-guided nested patterns: the long-range state of the parser (what an earlier group / segment leaves
+    # behind for a later one), which bounded-exhaustive short strings cannot reach
+    import textgen
+    pats += textgen.corpus(rng, 2500 if ctx.quick else 40000)
     pats += list(extra_patterns)
     pats = sorted(set(pats))
     res = corr.corr_parse(pats, flagsets, bytes_modes=bytes_modes)
